@@ -794,12 +794,6 @@ def correspond(ctx):
     if len(samples) < 4 and (n % 7 == 0):
       samples.append(dict(label={k: str(v) for k, v in label.items()}, xml=xml[:600], outcome=tag,
                           model=None if ans is None else {k: ans[k] for k in ('v', 'br') if k in ans}))
-  # check.py turns "only known spec failures, nothing broken" into a no-failing-input-found
-  # violation, so listed known findings are moved out of spec_failures here (they are re-run and
-  # printed as KNOWN-FINDING by check.py through reproduce_known)
-  known_keys = {e['key'] for e in C.load_known('C14') if e.get('kind') == 'known'}
-  known_hit = sorted({s['key'] for s in spec_failures if s['key'] in known_keys})
-  spec_failures = [s for s in spec_failures if s['key'] not in known_keys]
   n_h, dis_h, dist_h = helper_leg(ctx, rng, ctx.budget(150, 1500))
   disagreements += dis_h
   names = ['integrator', 'cone', 'fluid', 'wind', 'impratio', 'bias', 'gain', 'trn', 'solmix', 'priority',
@@ -817,7 +811,7 @@ def correspond(ctx):
                     'mujoco XML compiler and mjx.put_model (external; documents they reject are counted, not judged)',
                     'agreement model = code is established on the sampled documents only'],
       assumptions=['WF (array shapes, joints listed body by body, qposadr/dofadr = prefix sums of joint widths, '
-                   'parent id < body id, every non-world body has a joint after _fuse_bodies) is an assumption '
+                   'parent id < body id, every non-world body has a joint after _fuse_bodies, 0 <= contype/conaffinity < 2^31) is an assumption '
                    'about MuJoCo; the driver checks it on every input',
                    'link-count / width theorems assume at most 3 joints per body (4 hinges on one body are accepted '
                    'by validate_model and fail later with KeyError; outside the generator)',
@@ -828,7 +822,7 @@ def correspond(ctx):
                  first_failing_check={(names[int(k)] if k != '-' else 'none'): v for k, v in branches.items()},
                  accepted_link_types=dict(sorted(link_types.items(), key=lambda kv: -kv[1])[:12]),
                  rejected_by_mujoco_compiler=sorted(set(mj_rejected)), n_rejected_by_mujoco_compiler=len(mj_rejected),
-                 helper_cases=n_h, documents=len(cases), known_findings_reproduced=known_hit, init_executed_concretely=n_exec,
+                 helper_cases=n_h, documents=len(cases), init_executed_concretely=n_exec,
                  init_observed_by='jax.eval_shape of the real pipeline.init (python-level raises); first accepted clean documents also jitted and run', wall_correspond_s=round(time.time() - t0, 1)))
 
 
